@@ -61,6 +61,7 @@ def gen_case(rng):
 
 
 def correspondence(ctx, model_ok):
+    gen.HOSTILE_P = 0.03     # unusual but legal labels: '', '@', 'a@b', mutual prefixes, case pairs
     r = CorrResult()
     r.rule = ('histories mixing into_bench with gate additions, block creation and renaming on circuits over all gate '
               'types (comparison gates with identical operands, L*/R* gates, constants with and without operands, '
